@@ -1,7 +1,7 @@
 SPECIFICATION Spec
 CONSTANTS
   NWorkers = 2
-  MaxChunks = 2
+  MaxChunks = 1
   FaultTasks = 1
   SetupIds = {"inplace2", "separate", "bundle", "bundleinplace", "sync", "syncinplace", "alias", "hard", "overwrite"}
 INVARIANTS NeverLost ReadOnlyUntouched OthersUntouched DoneClean DestinationsComplete NoDescriptorLeak
